@@ -42,6 +42,7 @@ type Thread struct {
 	low      bool
 	sel      *selState
 	started  bool
+	prio     int // scheduling priority (higher first); demoted threads get negative values
 }
 
 func (t *Thread) String() string { return fmt.Sprintf("T%d(%s)@%s", t.ID, t.Name, t.label) }
@@ -86,6 +87,7 @@ type Sched struct {
 	lastSel selDone
 
 	randSeq int
+	minPrio int
 	// Seq is a global logical clock: incremented by Stamp().
 	seq int64
 }
@@ -124,15 +126,24 @@ func Run(ch Chooser, opt Options, main func()) *Result {
 		if len(en) == 0 {
 			break
 		}
-		pick := 0
-		if len(en) > 1 {
-			c := Choice{Kind: 's', N: len(en), Preempt: s.running != nil && en[0] == s.running, Sig: sigOf(en)}
+		// Scheduling policy: highest priority first; among equals the running thread
+		// continues, then ascending ids.  The only scheduling choice is, at a point where
+		// the running thread could continue although others are runnable, to DEMOTE it
+		// below every other thread (it then sleeps until the others have run as far as
+		// they can).  One demotion = one deviation from the default schedule.
+		t := en[0]
+		if len(en) > 1 && s.running != nil && en[0] == s.running && !s.running.low {
+			c := Choice{Kind: 's', N: 2, Preempt: true, Sig: sigOf(en)}
 			if opt.Trace {
 				c.Label = labelsOf(en)
 			}
-			pick = s.choose(&c)
+			if s.choose(&c) == 1 {
+				s.minPrio--
+				s.running.prio = s.minPrio
+				en = s.enabled(en[:0])
+				t = en[0]
+			}
 		}
-		t := en[pick]
 		s.running = t
 		t.wake <- struct{}{}
 		<-s.yield
@@ -209,11 +220,8 @@ func (s *Sched) choose(c *Choice) int {
 // thread is enabled.
 func (s *Sched) enabled(buf []*Thread) []*Thread {
 	en := buf
-	if r := s.running; r != nil && !r.done && !r.low && (r.pred == nil || r.pred()) {
-		en = append(en, r)
-	}
 	for _, t := range s.threads {
-		if t.done || t.low || t == s.running {
+		if t.done || t.low {
 			continue
 		}
 		if t.pred == nil || t.pred() {
@@ -221,6 +229,19 @@ func (s *Sched) enabled(buf []*Thread) []*Thread {
 		}
 	}
 	if len(en) > 0 {
+		// order: priority desc, running first, id asc (threads are already in id order)
+		best := 0
+		for i, t := range en {
+			b := en[best]
+			if t.prio > b.prio || (t.prio == b.prio && t == s.running && b != s.running) {
+				best = i
+			}
+		}
+		if best != 0 {
+			t := en[best]
+			copy(en[1:best+1], en[:best])
+			en[0] = t
+		}
 		return en
 	}
 	for _, t := range s.threads {
